@@ -3,8 +3,11 @@ import ShredModel.Lemmas.Meta
 # C17 — Meta table: exactly the registered types, once each, with the right vtable
 
 Model: `Model/Meta.lean` (mirror of `src/meta.rs`, stable variant). `cast : CastFn` is the user's
-`CastFrom` implementation (`cast r a` = address it returns for concrete type `r` and address `a`)
-and is universally quantified everywhere. `regs` is an arbitrary history of `register` calls
+`CastFrom` implementation (`cast r a` = the pointer — address *and* vtable — it returns for concrete
+type `r` and address `a`) and is universally quantified everywhere: it covers implementors of every
+size (zero-sized ones included: the model's check never looks at the size), alignment and drop glue,
+generic ones, and wrong casts of every shape (an offset, another object of the same type, a static, a
+field, an object of another type). The lawful implementation is `lawfulCast r a = ⟨a, r⟩`. `regs` is an arbitrary history of `register` calls
 (repeats allowed); `firstOccs regs` is `regs` with only the first occurrence of each type kept.
 "Present" means present in the world under dynamic id 0, the only key the iterators look up.
 -/
@@ -55,13 +58,13 @@ example : (({} : MetaTable).registerAll [3, 1, 3, 2, 1, 3]).indices = [(3, 0), (
 /-! ## `get` / `get_mut` -/
 
 /-- **get, completely**: on a resource of concrete type `r.ty` at address `r.addr`, `get` returns
-`None` iff the type was never registered; otherwise it returns a pointer with the same address and
-the vtable of that very type if the `CastFrom` implementation preserves the address, and panics
-(before a reference is formed) if it does not. -/
+`None` iff the type was never registered; otherwise it calls the `CastFrom` implementation of that
+very type (no other) on that very address, returns what it produced if the address is unchanged,
+and panics (before a reference is formed) if it is not. -/
 theorem C17_get_spec (cast : CastFn) (regs : List Nat) (r : ResRef) :
     (({} : MetaTable).registerAll regs).get cast r =
       if r.ty ∈ regs then
-        if cast r.ty r.addr = r.addr then .some ⟨r.addr, r.ty⟩ else .panic .badCast
+        if (cast r.ty r.addr).addr = r.addr then .some (cast r.ty r.addr) else .panic .badCast
       else .none := by
   by_cases hm : r.ty ∈ regs
   · rw [if_pos hm]
@@ -69,53 +72,112 @@ theorem C17_get_spec (cast : CastFn) (regs : List Nat) (r : ResRef) :
   · rw [if_neg hm]
     exact get_of_not_mem (C17_inv regs) cast (fun h => hm ((C17_registered_iff regs r.ty).mp h))
 
-/-- **get_some_iff**: `get` is `Some` exactly when the concrete type was registered (given an
-address-preserving cast for it), and then the result denotes that very resource: same address,
-vtable of the concrete type. -/
+/-- **get_some_iff**: `get` is `Some` exactly when the concrete type was registered (given a lawful
+cast for it: the pointer it was given, with the vtable of the type it is the implementation for),
+and then the result denotes that very resource: same address, vtable of the concrete type. -/
 theorem C17_get_some_iff (cast : CastFn) (regs : List Nat) (r : ResRef)
-    (hcast : cast r.ty r.addr = r.addr) (p : TraitPtr) :
+    (hcast : cast r.ty r.addr = ⟨r.addr, r.ty⟩) (p : TraitPtr) :
     (({} : MetaTable).registerAll regs).get cast r = .some p ↔
       r.ty ∈ regs ∧ p = ⟨r.addr, r.ty⟩ := by
   rw [C17_get_spec]
   by_cases hm : r.ty ∈ regs
-  · rw [if_pos hm, if_pos hcast]
+  · rw [if_pos hm, hcast, if_pos rfl]
     constructor
     · intro h; cases h; exact ⟨hm, rfl⟩
     · rintro ⟨_, rfl⟩; rfl
   · simp [hm]
 
+/-- **same address, whatever the cast**: for *every* `CastFrom` implementation — lawful or not,
+for an implementor of any size — a reference that `get` / `get_mut` returns has the address of the
+resource it was asked about, was produced by the cast of the resource's own type, and that type was
+registered. (The vtable is the one the cast attached: the address check cannot see it. It is the
+concrete type's own under the `# Safety` contract of `CastFrom`, see `C17_get_some_iff`.) -/
+theorem C17_get_some_same_address (cast : CastFn) (regs : List Nat) (r : ResRef) (p : TraitPtr)
+    (h : (({} : MetaTable).registerAll regs).get cast r = .some p ∨
+         (({} : MetaTable).registerAll regs).getMut cast r = .some p) :
+    r.ty ∈ regs ∧ p.addr = r.addr ∧ p = cast r.ty r.addr := by
+  have h' : (({} : MetaTable).registerAll regs).get cast r = .some p := by
+    rcases h with h | h
+    · exact h
+    · rw [getMut_eq_get] at h; exact h
+  rw [C17_get_spec] at h'
+  by_cases hm : r.ty ∈ regs
+  · rw [if_pos hm] at h'
+    by_cases hc : (cast r.ty r.addr).addr = r.addr
+    · rw [if_pos hc] at h'
+      cases h'
+      exact ⟨hm, hc, rfl⟩
+    · rw [if_neg hc] at h'; cases h'
+  · rw [if_neg hm] at h'; cases h'
+
 theorem C17_get_none_iff (cast : CastFn) (regs : List Nat) (r : ResRef) :
     (({} : MetaTable).registerAll regs).get cast r = .none ↔ r.ty ∉ regs := by
   rw [C17_get_spec]
   by_cases hm : r.ty ∈ regs
-  · by_cases hc : cast r.ty r.addr = r.addr <;> simp [hm, hc]
+  · by_cases hc : (cast r.ty r.addr).addr = r.addr <;> simp [hm, hc]
   · simp [hm]
 
 /-- `get_mut` computes the same pointer -/
 theorem C17_getMut_spec (cast : CastFn) (regs : List Nat) (r : ResRef) :
     (({} : MetaTable).registerAll regs).getMut cast r =
       if r.ty ∈ regs then
-        if cast r.ty r.addr = r.addr then .some ⟨r.addr, r.ty⟩ else .panic .badCast
+        if (cast r.ty r.addr).addr = r.addr then .some (cast r.ty r.addr) else .panic .badCast
       else .none := by
   rw [getMut_eq_get]; exact C17_get_spec cast regs r
 
-/-- **bad_cast_panics (get)**: a `CastFrom` that changes the address of a registered type makes
-`get` / `get_mut` panic; no reference is produced. -/
+/-- **bad_cast_panics (get)**: a `CastFrom` that changes the address of a registered type —
+whatever it points at instead and whatever vtable it carries — makes `get` / `get_mut` panic; no
+reference is produced. -/
 theorem C17_bad_cast_panics_get (cast : CastFn) (regs : List Nat) (r : ResRef)
-    (hreg : r.ty ∈ regs) (hbad : cast r.ty r.addr ≠ r.addr) :
+    (hreg : r.ty ∈ regs) (hbad : (cast r.ty r.addr).addr ≠ r.addr) :
     (({} : MetaTable).registerAll regs).get cast r = .panic .badCast ∧
     (({} : MetaTable).registerAll regs).getMut cast r = .panic .badCast := by
   rw [C17_getMut_spec, C17_get_spec]
   simp [hreg, hbad]
 
+/-- **The check happens at every use, never at registration.** `register` does not take the cast
+(the stable `register`, l.367-390, only stores the function pointer), so a table is built the same
+way whatever the `CastFrom` implementations are and registration cannot reject one; and the table
+keeps no memory of earlier checks: on the same table, the same resource is converted while its
+cast behaves (`castA`) and rejected by a panic as soon as it does not (`castB`), in either order. -/
+theorem C17_check_at_every_use (castA castB : CastFn) (regs : List Nat) (r : ResRef)
+    (hreg : r.ty ∈ regs) (hA : castA r.ty r.addr = ⟨r.addr, r.ty⟩)
+    (hB : (castB r.ty r.addr).addr ≠ r.addr) :
+    let t := ({} : MetaTable).registerAll regs
+    t.get castA r = .some ⟨r.addr, r.ty⟩ ∧ t.getMut castA r = .some ⟨r.addr, r.ty⟩ ∧
+    t.get castB r = .panic .badCast ∧ t.getMut castB r = .panic .badCast := by
+  intro t
+  have h1 := (C17_get_some_iff castA regs r hA ⟨r.addr, r.ty⟩).mpr ⟨hreg, rfl⟩
+  have h2 := C17_bad_cast_panics_get castB regs r hreg hB
+  refine ⟨h1, ?_, h2.1, h2.2⟩
+  show t.getMut castA r = _
+  rw [getMut_eq_get]; exact h1
+
+/-- an address-preserving cast that attaches another type's vtable (a pointer to the first field,
+another zero-sized type at the same dangling address) passes the check: the code returns it -/
+theorem C17_get_same_address_other_vtable (cast : CastFn) (regs : List Nat) (r : ResRef) (v : Nat)
+    (hreg : r.ty ∈ regs) (hc : cast r.ty r.addr = ⟨r.addr, v⟩) :
+    (({} : MetaTable).registerAll regs).get cast r = .some ⟨r.addr, v⟩ := by
+  rw [C17_get_spec, if_pos hreg, hc, if_pos rfl]
+
 -- registered, good cast: found, same address, own vtable
-example : (({} : MetaTable).registerAll [3, 1, 3]).get (fun _ a => a) ⟨1, 4096⟩ = .some ⟨4096, 1⟩ := by
+example : (({} : MetaTable).registerAll [3, 1, 3]).get lawfulCast ⟨1, 4096⟩ = .some ⟨4096, 1⟩ := by
   decide
 -- never registered
-example : (({} : MetaTable).registerAll [3, 1, 3]).get (fun _ a => a) ⟨2, 4096⟩ = .none := by decide
--- the cast of type 3 moves the pointer
-example : (({} : MetaTable).registerAll [3, 1, 3]).get (fun ty a => if ty = 3 then a + 8 else a)
+example : (({} : MetaTable).registerAll [3, 1, 3]).get lawfulCast ⟨2, 4096⟩ = .none := by decide
+-- the cast of type 3 moves the pointer (by an offset; to a decoy of type 9 somewhere else)
+example : (({} : MetaTable).registerAll [3, 1, 3]).get (fun ty a => if ty = 3 then ⟨a + 8, ty⟩ else ⟨a, ty⟩)
     ⟨3, 4096⟩ = .panic .badCast := by decide
+example : (({} : MetaTable).registerAll [3, 1, 3]).get (fun ty a => if ty = 3 then ⟨777, 9⟩ else ⟨a, ty⟩)
+    ⟨3, 4096⟩ = .panic .badCast := by decide
+-- a zero-sized implementor lives at the dangling address `align_of` (here 1): nothing special
+example : (({} : MetaTable).registerAll [3, 1, 3]).get (fun ty a => if ty = 3 then ⟨777, 9⟩ else ⟨a, ty⟩)
+    ⟨3, 1⟩ = .panic .badCast := by decide
+-- the hypotheses of `C17_check_at_every_use` / `C17_get_same_address_other_vtable` are satisfiable
+example : (3 ∈ [3, 1, 3]) ∧ lawfulCast 3 4096 = ⟨4096, 3⟩ ∧
+    ((fun _ _ => ⟨777, 9⟩ : CastFn) 3 4096).addr ≠ 4096 := by decide
+example : (({} : MetaTable).registerAll [3, 1, 3]).get (fun _ a => ⟨a, 9⟩) ⟨3, 4096⟩ = .some ⟨4096, 9⟩ := by
+  decide
 
 /-! ## One call of `next` -/
 
@@ -126,9 +188,10 @@ present (`pre` = the absent ones skipped), `c` its cell, and the call
 
 * panics with the cell's borrow error and changes nothing if the cell cannot be borrowed in the
   requested way (C08 rules: shared needs "not exclusively borrowed", exclusive needs "free"),
-* panics with the `CastFrom` bug message, the cell left as it was, if the cast moves the address,
-* otherwise yields the pointer (address of the resource, vtable of `ty`) and the cell is borrowed
-  once more — shared for `iter`, exclusively for `iter_mut`;
+* panics with the `CastFrom` bug message, the cell left as it was, if the cast of `ty` (no other
+  type's) moves the address,
+* otherwise yields the pointer that cast produced (address of the resource; the vtable of `ty` for a
+  lawful cast) and the cell is borrowed once more — shared for `iter`, exclusively for `iter_mut`;
 
 in all three cases the position moves just past `ty`. -/
 theorem C17_next_spec (cast : CastFn) (regs : List Nat) (w : MWorld) (i : Nat) (excl : Bool) :
@@ -141,8 +204,8 @@ theorem C17_next_spec (cast : CastFn) (regs : List Nat) (w : MWorld) (i : Nat) (
         match Shred.tryBorrow c.borrow excl with
         | none => (w, ⟨i + pre.length + 1, excl⟩, .panic .borrowed)
         | some b' =>
-          if cast ty c.addr = c.addr then
-            (w.set ty (some { c with borrow := b' }), ⟨i + pre.length + 1, excl⟩, .item ⟨c.addr, ty⟩)
+          if (cast ty c.addr).addr = c.addr then
+            (w.set ty (some { c with borrow := b' }), ⟨i + pre.length + 1, excl⟩, .item (cast ty c.addr))
           else (w, ⟨i + pre.length + 1, excl⟩, .panic .badCast) := by
   intro t
   have hinv : MetaInv t := C17_inv regs
@@ -162,7 +225,7 @@ theorem C17_next_spec (cast : CastFn) (regs : List Nat) (w : MWorld) (i : Nat) (
     | none => rfl
     | some b' =>
       simp only []
-      by_cases hcast : cast ty c.addr = c.addr <;> simp [hcast]
+      by_cases hcast : (cast ty c.addr).addr = c.addr <;> simp [hcast]
 
 /-- the indexing `self.vtable_fns[index]` in `next` cannot panic -/
 theorem C17_next_in_bounds (cast : CastFn) (regs : List Nat) (w : MWorld) (i : Nat) (excl : Bool) :
@@ -174,7 +237,34 @@ theorem C17_next_in_bounds (cast : CastFn) (regs : List Nat) (w : MWorld) (i : N
     | none => simp
     | some b' =>
       simp only []
-      by_cases hcast : cast ty c.addr = c.addr <;> simp [hcast]
+      by_cases hcast : (cast ty c.addr).addr = c.addr <;> simp [hcast]
+
+/-- **same address, whatever the cast (next)**: for *every* `CastFrom` implementation, an item that
+`next` yields has the address of a present resource of a registered type, was produced by the
+cast of that resource's own type, and it is that resource's cell — no other — that got borrowed. -/
+theorem C17_next_item_same_address (cast : CastFn) (regs : List Nat) (w : MWorld) (i : Nat)
+    (excl : Bool) (w' : MWorld) (it' : MIter) (p : TraitPtr)
+    (h : (({} : MetaTable).registerAll regs).next cast w ⟨i, excl⟩ = (w', it', .item p)) :
+    ∃ ty c b', ty ∈ regs ∧ w.cell ty = some c ∧ p = cast ty c.addr ∧ p.addr = c.addr ∧
+      Shred.tryBorrow c.borrow excl = some b' ∧ w' = w.set ty (some { c with borrow := b' }) := by
+  rcases C17_next_spec cast regs w i excl with ⟨_, hn⟩ | ⟨pre, ty, rest, c, hd, _, hc, hn⟩
+  · rw [hn] at h; simp at h
+  · have hmem : ty ∈ regs := by
+      apply (C17_registered_iff regs ty).mp
+      have : ty ∈ (({} : MetaTable).registerAll regs).tys.drop i := by rw [hd]; simp
+      exact List.mem_of_mem_drop this
+    rw [hn] at h
+    cases hb : Shred.tryBorrow c.borrow excl with
+    | none => rw [hb] at h; simp at h
+    | some b' =>
+      rw [hb] at h
+      simp only [] at h
+      by_cases hcast : (cast ty c.addr).addr = c.addr
+      · rw [if_pos hcast] at h
+        simp only [Prod.mk.injEq, NextOut.item.injEq] at h
+        obtain ⟨hw, _, hp⟩ := h
+        exact ⟨ty, c, b', hmem, hc, hp.symm, hp ▸ hcast, hb, hw.symm⟩
+      · rw [if_neg hcast] at h; simp at h
 
 /-- **bad_cast_panics (next)**: if the first present registered type from the current position
 has a cast that moves the address (and its cell could be borrowed), `next` panics with the
@@ -183,7 +273,7 @@ theorem C17_bad_cast_panics_next (cast : CastFn) (regs : List Nat) (w : MWorld) 
     (excl : Bool) (pre : List Nat) (ty : Nat) (rest : List Nat) (c : MCell)
     (hd : (({} : MetaTable).registerAll regs).tys.drop i = pre ++ ty :: rest)
     (hpre : ∀ x ∈ pre, w.cell x = none) (hc : w.cell ty = some c)
-    (hb : (Shred.tryBorrow c.borrow excl).isSome) (hbad : cast ty c.addr ≠ c.addr) :
+    (hb : (Shred.tryBorrow c.borrow excl).isSome) (hbad : (cast ty c.addr).addr ≠ c.addr) :
     (({} : MetaTable).registerAll regs).next cast w ⟨i, excl⟩ =
       (w, ⟨i + pre.length + 1, excl⟩, .panic .badCast) := by
   have hinv := C17_inv regs
@@ -244,24 +334,25 @@ theorem C17_release_item (w : MWorld) (ty : Nat) (c : MCell) (excl : Bool) (b' :
 
 /-! ## The whole iteration -/
 
-/-- **iter_spec.** Let any history of `register` calls build the table, and let the world be such
-that every registered resource that is present can be borrowed in the iterator's way (e.g. no
-guard alive) and has an address-preserving cast. Then running the iterator to the end
-(`for x in table.iter(&world)` keeping the items) ends with `None` — no panic — and
+/-- **iter_spec, any address-preserving cast.** Let any history of `register` calls build the
+table, and let the world be such that every registered resource that is present can be borrowed in
+the iterator's way (e.g. no guard alive) and has an address-preserving cast (whatever vtable it
+attaches). Then running the iterator to the end ends with `None` — no panic — and
 
-* the items are, in this order, the first occurrences in `regs` of the types that are present:
-  each registered present type exactly once, none else, in first-registration order;
-* every item has the address of the resource of its type and the vtable of that type;
+* the items are, in this order, what the casts of the first occurrences in `regs` of the types that
+  are present produce on the addresses of their resources: each registered present type exactly once,
+  none else, in first-registration order;
+* every item has the address of the resource it was made from;
 * afterwards exactly the cells of the registered present types carry one more borrow of the
   iterator's kind (shared for `iter`, exclusive for `iter_mut`), every other cell is untouched. -/
-theorem C17_iter_spec (cast : CastFn) (regs : List Nat) (w : MWorld) (excl : Bool)
+theorem C17_iter_spec_any_vtable (cast : CastFn) (regs : List Nat) (w : MWorld) (excl : Bool)
     (hok : ∀ ty ∈ regs, ∀ c, w.cell ty = some c →
-      (Shred.tryBorrow c.borrow excl).isSome ∧ cast ty c.addr = c.addr) :
+      (Shred.tryBorrow c.borrow excl).isSome ∧ (cast ty c.addr).addr = c.addr) :
     let t := ({} : MetaTable).registerAll regs
     let r := t.collect cast w (t.iter excl)
     r.panic = none ∧
-    r.items.map (·.vtable) = (firstOccs regs).filter w.present ∧
-    (∀ p ∈ r.items, p.addr = addrOf w p.vtable) ∧
+    r.items = ((firstOccs regs).filter w.present).map (fun ty => cast ty (addrOf w ty)) ∧
+    r.items.map (·.addr) = ((firstOccs regs).filter w.present).map (addrOf w) ∧
     (∀ k, r.world.cell k =
       if k ∈ regs then (w.cell k).map (borrowCell excl) else w.cell k) := by
   intro t r
@@ -273,12 +364,15 @@ theorem C17_iter_spec (cast : CastFn) (regs : List Nat) (w : MWorld) (excl : Boo
   have hr : r = collectN cast t excl (t.tys.length + 1) w 0 [] := rfl
   rw [hr]
   refine ⟨h1, ?_, ?_, ?_⟩
-  · rw [h3, ← htys]; simp [List.map_map, Function.comp_def]
-  · intro p hp
-    rw [h3] at hp
-    simp only [List.nil_append, List.mem_map] at hp
-    obtain ⟨ty, _, rfl⟩ := hp
-    rfl
+  · rw [h3, ← htys]; simp
+  · rw [h3, ← htys]
+    simp only [List.nil_append, List.map_map]
+    apply List.map_congr_left
+    intro ty hty
+    obtain ⟨hmem, hpres⟩ := List.mem_filter.mp hty
+    obtain ⟨c, hc⟩ := Option.isSome_iff_exists.mp (by simpa [MWorld.present] using hpres)
+    have := (hok ty ((C17_registered_iff regs ty).mp hmem) c hc).2
+    simp [addrOf, hc, this]
   · intro k
     rw [h4 k]
     have : k ∈ t.tys ↔ k ∈ regs := C17_registered_iff regs k
@@ -286,10 +380,55 @@ theorem C17_iter_spec (cast : CastFn) (regs : List Nat) (w : MWorld) (excl : Boo
     · rw [if_pos hk, if_pos (this.mpr hk)]
     · rw [if_neg hk, if_neg (fun h => hk (this.mp h))]
 
+/-- **iter_spec.** Let any history of `register` calls build the table, and let the world be such
+that every registered resource that is present can be borrowed in the iterator's way (e.g. no
+guard alive) and has a lawful cast (same address, vtable of the type it is the implementation
+for). Then running the iterator to the end
+(`for x in table.iter(&world)` keeping the items) ends with `None` — no panic — and
+
+* the items are, in this order, the first occurrences in `regs` of the types that are present:
+  each registered present type exactly once, none else, in first-registration order;
+* every item has the address of the resource of its type and the vtable of that type;
+* afterwards exactly the cells of the registered present types carry one more borrow of the
+  iterator's kind (shared for `iter`, exclusive for `iter_mut`), every other cell is untouched. -/
+theorem C17_iter_spec (cast : CastFn) (regs : List Nat) (w : MWorld) (excl : Bool)
+    (hok : ∀ ty ∈ regs, ∀ c, w.cell ty = some c →
+      (Shred.tryBorrow c.borrow excl).isSome ∧ cast ty c.addr = ⟨c.addr, ty⟩) :
+    let t := ({} : MetaTable).registerAll regs
+    let r := t.collect cast w (t.iter excl)
+    r.panic = none ∧
+    r.items.map (·.vtable) = (firstOccs regs).filter w.present ∧
+    (∀ p ∈ r.items, p.addr = addrOf w p.vtable) ∧
+    (∀ k, r.world.cell k =
+      if k ∈ regs then (w.cell k).map (borrowCell excl) else w.cell k) := by
+  intro t r
+  have hok' : ∀ ty ∈ regs, ∀ c, w.cell ty = some c →
+      (Shred.tryBorrow c.borrow excl).isSome ∧ (cast ty c.addr).addr = c.addr := by
+    intro ty hty c hc
+    obtain ⟨h1, h2⟩ := hok ty hty c hc
+    exact ⟨h1, by rw [h2]⟩
+  obtain ⟨h1, h2, _, h4⟩ := C17_iter_spec_any_vtable cast regs w excl hok'
+  have hitem : ∀ ty ∈ (firstOccs regs).filter w.present, cast ty (addrOf w ty) = ⟨addrOf w ty, ty⟩ := by
+    intro ty hty
+    obtain ⟨hmem, hpres⟩ := List.mem_filter.mp hty
+    obtain ⟨c, hc⟩ := Option.isSome_iff_exists.mp (by simpa [MWorld.present] using hpres)
+    have := (hok ty ((mem_firstOccs regs ty).mp hmem) c hc).2
+    simp [addrOf, hc, this]
+  have hitems : r.items = ((firstOccs regs).filter w.present).map (fun ty => ⟨addrOf w ty, ty⟩) := by
+    rw [h2]
+    exact List.map_congr_left hitem
+  refine ⟨h1, ?_, ?_, h4⟩
+  · rw [hitems]; simp [List.map_map, Function.comp_def]
+  · intro p hp
+    rw [hitems] at hp
+    simp only [List.mem_map] at hp
+    obtain ⟨ty, _, rfl⟩ := hp
+    rfl
+
 /-- once each, whatever the number of registrations -/
 theorem C17_iter_once_each (cast : CastFn) (regs : List Nat) (w : MWorld) (excl : Bool)
     (hok : ∀ ty ∈ regs, ∀ c, w.cell ty = some c →
-      (Shred.tryBorrow c.borrow excl).isSome ∧ cast ty c.addr = c.addr) :
+      (Shred.tryBorrow c.borrow excl).isSome ∧ cast ty c.addr = ⟨c.addr, ty⟩) :
     let t := ({} : MetaTable).registerAll regs
     ((t.collect cast w (t.iter excl)).items.map (·.vtable)).Nodup ∧
     ∀ ty, ty ∈ (t.collect cast w (t.iter excl)).items.map (·.vtable) ↔
@@ -305,18 +444,18 @@ theorem C17_iter_once_each (cast : CastFn) (regs : List Nat) (w : MWorld) (excl 
 theorem C17_iter_free_world (regs : List Nat) (w : MWorld) (excl : Bool)
     (hfree : ∀ ty c, w.cell ty = some c → c.borrow = .free) :
     let t := ({} : MetaTable).registerAll regs
-    let r := t.collect (fun _ a => a) w (t.iter excl)
+    let r := t.collect lawfulCast w (t.iter excl)
     r.panic = none ∧ r.items.map (·.vtable) = (firstOccs regs).filter w.present ∧
     (∀ p ∈ r.items, p.addr = addrOf w p.vtable) ∧
     ∀ k c, w.cell k = some c → r.world.cell k =
       some { c with borrow := if k ∈ regs then (if excl then .excl else .shared 1) else .free } := by
   intro t r
   have hok : ∀ ty ∈ regs, ∀ c, w.cell ty = some c →
-      (Shred.tryBorrow c.borrow excl).isSome ∧ (fun _ a => a : CastFn) ty c.addr = c.addr := by
+      (Shred.tryBorrow c.borrow excl).isSome ∧ lawfulCast ty c.addr = ⟨c.addr, ty⟩ := by
     intro ty _ c hc
     rw [hfree ty c hc]
     cases excl <;> exact ⟨rfl, rfl⟩
-  obtain ⟨h1, h2, h3, h4⟩ := C17_iter_spec (fun _ a => a) regs w excl hok
+  obtain ⟨h1, h2, h3, h4⟩ := C17_iter_spec lawfulCast regs w excl hok
   refine ⟨h1, h2, h3, ?_⟩
   intro k c hc
   have hcb := hfree k c hc
@@ -338,29 +477,29 @@ theorem C17_collect_fuel (cast : CastFn) (t : MetaTable) (w : MWorld) (excl : Bo
 def exWorld : MWorld := ((MWorld.empty.insert 1 100).insert 2 200).insert 7 700
 
 example : ∀ ty ∈ [3, 1, 3, 2, 1, 3], ∀ c, exWorld.cell ty = some c →
-    (Shred.tryBorrow c.borrow false).isSome ∧ (fun _ a => a : CastFn) ty c.addr = c.addr := by
+    (Shred.tryBorrow c.borrow false).isSome ∧ lawfulCast ty c.addr = ⟨c.addr, ty⟩ := by
   intro ty hty c hc
   simp only [List.mem_cons, List.not_mem_nil, or_false] at hty
   rcases hty with rfl | rfl | rfl | rfl | rfl | rfl <;>
-    simp_all [exWorld, MWorld.insert, MWorld.set, MWorld.empty] <;> (subst hc; rfl)
+    simp_all [exWorld, MWorld.insert, MWorld.set, MWorld.empty] <;> (subst hc; exact ⟨rfl, rfl⟩)
 
 example :
     let t := ({} : MetaTable).registerAll [3, 1, 3, 2, 1, 3]
-    (t.collect (fun _ a => a) exWorld (t.iter false)).items = [⟨100, 1⟩, ⟨200, 2⟩] ∧
-    (t.collect (fun _ a => a) exWorld (t.iter false)).panic = none ∧
-    ((t.collect (fun _ a => a) exWorld (t.iter true)).world.cell 2) = some ⟨200, .excl⟩ ∧
-    ((t.collect (fun _ a => a) exWorld (t.iter true)).world.cell 7) = some ⟨700, .free⟩ := by
+    (t.collect lawfulCast exWorld (t.iter false)).items = [⟨100, 1⟩, ⟨200, 2⟩] ∧
+    (t.collect lawfulCast exWorld (t.iter false)).panic = none ∧
+    ((t.collect lawfulCast exWorld (t.iter true)).world.cell 2) = some ⟨200, .excl⟩ ∧
+    ((t.collect lawfulCast exWorld (t.iter true)).world.cell 7) = some ⟨700, .free⟩ := by
   decide
 
 -- a fetched (shared) resource: `iter` passes, `iter_mut` panics at it, a wrong cast panics
 example :
     let t := ({} : MetaTable).registerAll [3, 1, 3, 2, 1, 3]
     let w := (exWorld.acquire 2 false).1
-    (t.collect (fun _ a => a) w (t.iter false)).items = [⟨100, 1⟩, ⟨200, 2⟩] ∧
-    (t.collect (fun _ a => a) w (t.iter true)).items = [⟨100, 1⟩] ∧
-    (t.collect (fun _ a => a) w (t.iter true)).panic = some .borrowed ∧
-    (t.collect (fun ty a => if ty = 1 then a + 8 else a) w (t.iter false)).panic = some .badCast ∧
-    (t.collect (fun ty a => if ty = 1 then a + 8 else a) w (t.iter false)).items = [] := by
+    (t.collect lawfulCast w (t.iter false)).items = [⟨100, 1⟩, ⟨200, 2⟩] ∧
+    (t.collect lawfulCast w (t.iter true)).items = [⟨100, 1⟩] ∧
+    (t.collect lawfulCast w (t.iter true)).panic = some .borrowed ∧
+    (t.collect (fun ty a => if ty = 1 then ⟨a + 8, ty⟩ else ⟨a, ty⟩) w (t.iter false)).panic = some .badCast ∧
+    (t.collect (fun ty a => if ty = 1 then ⟨a + 8, ty⟩ else ⟨a, ty⟩) w (t.iter false)).items = [] := by
   decide
 
 #print axioms C17_inv
@@ -371,15 +510,20 @@ example :
 #print axioms C17_register_idem
 #print axioms C17_get_spec
 #print axioms C17_get_some_iff
+#print axioms C17_get_some_same_address
 #print axioms C17_get_none_iff
 #print axioms C17_getMut_spec
 #print axioms C17_bad_cast_panics_get
+#print axioms C17_check_at_every_use
+#print axioms C17_get_same_address_other_vtable
 #print axioms C17_next_spec
 #print axioms C17_next_in_bounds
+#print axioms C17_next_item_same_address
 #print axioms C17_bad_cast_panics_next
 #print axioms C17_next_conflict_panics
 #print axioms C17_borrow_kind
 #print axioms C17_release_item
+#print axioms C17_iter_spec_any_vtable
 #print axioms C17_iter_spec
 #print axioms C17_iter_once_each
 #print axioms C17_iter_free_world
